@@ -597,6 +597,67 @@ def r19_any_all(src, log, kind="vec"):
 
 
 
+def find_simple_method(src: str, name: str):
+    """a helper `fn name(&self) -> T { EXPR }` (only a self parameter, body = one expression without statements):
+    returns EXPR or None"""
+    try:
+        item_start, fn_kw, bo, bc, toks = find_fn(src, name, None, 1)
+    except ExtractError:
+        return None
+    s = sig(toks)
+    k = s.index(fn_kw)
+    # parameter list
+    j = k + 2
+    while toks[s[j]].text != "(":
+        if toks[s[j]].text == "<":
+            return None
+        j += 1
+    m = match_brackets(toks)
+    close = s.index(m[s[j]])
+    params = [toks[x].text for x in s[j + 1:close]]
+    if params not in (["&", "self"], ["self"]):
+        return None
+    body = src[toks[bo].end:toks[bc].start]
+    btoks = [x for x in lex(body) if x.kind not in ("ws", "comment")]
+    if any(x.text == ";" for x in btoks) or any(x.kind == "ident" and x.text in ("let", "return", "loop", "while", "for") for x in btoks):
+        return None
+    expr = " ".join(l.strip() for l in body.strip().split("\n") if not l.strip().startswith("//"))
+    return expr
+
+
+def r20_inline(src, log, inline_map):
+    """R20: `RECV.name()` -> `(EXPR[self := RECV])` for helper methods found by find_simple_method (pure single-expression
+    helpers introduced by refactoring); RECV must be a path of identifiers and field accesses."""
+    n = 0
+    for name, expr in inline_map.items():
+        while True:
+            toks = lex(src); s = sig(toks)
+            hit = None
+            for k, i in enumerate(s):
+                if toks[i].text == "." and k + 3 < len(s) and toks[s[k + 1]].text == name and toks[s[k + 2]].text == "(" and toks[s[k + 3]].text == ")":
+                    j = k - 1
+                    KW = ("if", "match", "return", "let", "in", "while", "else", "mut", "ref", "move", "as")
+                    while j >= 0 and ((toks[s[j]].kind == "ident" and toks[s[j]].text not in KW) or toks[s[j]].text == "."):
+                        j -= 1
+                    r0 = j + 1
+                    if r0 > k - 1:
+                        continue
+                    recv = src[toks[s[r0]].start:toks[i].start].strip()
+                    etoks = lex(expr)
+                    e2 = "".join(recv if (x.kind == "ident" and x.text == "self") else x.text for x in etoks)
+                    hit = (toks[s[r0]].start, toks[s[k + 3]].end, "(" + e2 + ")")
+                    break
+            if hit is None:
+                break
+            src = _replace(src, [hit])
+            n += 1
+    if n:
+        log["R20"] = log.get("R20", 0) + n
+        log["R20.inlined"] = sorted(inline_map)
+    return src
+
+
+
 def r11_bytelits(src, log, table):
     """b"lit" -> blit_<n>()  ; table collects the generated external_body functions.
     `E == b"lit"` (slice equality against a literal) -> `bytes_eq(E, blit_<n>())`, where the shim
@@ -1166,6 +1227,8 @@ def _gen_function(kv, sections, repo, res: UnitResult, variant) -> list:
         if kv.get("vis"):
             sig_text = re.sub(r"^\s*(pub(\([^)]*\))?\s+)?", kv["vis"] + " ", sig_text, count=1)
     # --- body rules
+    if variant.get("inline"):
+        body = r20_inline(body, log, variant["inline"])
     for r in rules:
         if r == "R7":
             body = r7_apply(body, log, kv.get("r7map", "result"))
